@@ -15,6 +15,15 @@ def rec_of(frame):
     return Rec(h.from_node, h.to_node, h.frame_id, h.message_type, h.reserved, bytes(frame.message))
 
 
+def wire(rec):
+    """the frame a caller's object stands for: a header's message type may be a one-character string (documented for the
+    constructor, supported by pack()), which means the character's code"""
+    t = rec.message_type
+    if isinstance(t, str):
+        return rec._replace(message_type=ord(t[0]))
+    return rec
+
+
 def key(rec):
     """frames with the same origin, frame id and type are the same frame"""
     return (rec.from_node, rec.frame_id, rec.message_type)
